@@ -88,3 +88,22 @@ def igf_cpp(f):
     """InstantiatedGlobalFunction.to_cpp: name<ns::Inst,...> with the identifier-safe instantiated names"""
     return (f.original.name + '<' + ','.join(['::'.join(i.namespaces + [tn_iname(i)]) for i in f.instantiations]) + '>'
             if f.original.template else f.original.name)
+
+
+@spec()
+def im_cpp(m):
+    """callee spelling of an instantiated (static) method / constructor: name<explicit template args>"""
+    return (m.original.name + '<' + ','.join([tn_cpp(x) for x in m.instantiations]) + '>'
+            if m.original.template else m.original.name)
+
+
+@spec()
+def callee_cpp(m):
+    return im_cpp(m) if isinstance(m, (InstantiatedMethod, InstantiatedStaticMethod)) else m.name
+
+
+@spec()
+def ic_cpp(c):
+    """C++ spelling of an instantiated class: ns::Name<args> (template) or ns::Name"""
+    return ('::'.join(ns_chain(c.parent)) + ('::' if len(ns_chain(c.parent)) > 0 else '')
+            + (c.original.name + '<' + ', '.join([tn_cpp(i) for i in c.instantiations]) + '>' if c.original.template else c.original.name))
